@@ -50,6 +50,9 @@ CHECKS["C14"] = ("exploration", "E1", "bounded exhaustive enumeration of wholly 
 CHECKS["C15"] = ("exploration", "E1", "bounded exhaustive enumeration of (value, type constraint with placeholders) pairs and of JSON documents from a grammar; encode/decode round trip, plain-JSON mirror via encoding/json, structural implied type",
   "Every wholly known, unmarked, capsule-free value of the bounded universe (all kinds, nulls at any depth, empty collections, the full finite number alphabet, normalising strings) x every constraint obtained by replacing any antichain of sub-types by the dynamic placeholder: Marshal succeeds, its bytes are valid JSON whose plain decoding mirrors the value (with {value,type} wrappers exactly at placeholder positions), Unmarshal with the same constraint gives the same type and a RawEquals value. Every document of a JSON grammar (depth 3, scalars in several spellings, duplicate and normalising keys): ImpliedType is the structural type, Unmarshal succeeds, re-marshalling and SimpleJSONValue reproduce the document up to key order, number spelling and NFC. Unknown, marked and infinite values are rejected with an error.",
   "trusted: encoding/json as judge of validity and plain decoding; the mirror and structural-type functions of c15.go; bound: codecTypes x member caps (c15.go)", "§3 C15/C16")
+CHECKS["C16"] = ("exploration", "E1", "bounded exhaustive enumeration of (value with unknowns at any depth, type constraint with placeholders) pairs; encode/decode round trip compared member-wise with a structural range-inclusion relation",
+  "Every unmarked capsule-free value of the bounded universe and every value obtained by replacing one position (thorough: two) by an unknown from a refinement alphabet covering every refinement the encoder writes (not-null; numeric bounds at the int64/uint64 limits, beyond them, fractional, 512-bit decimals, inclusive/exclusive; prefixes incl. 248..1100 bytes with 1-4-byte runes at the encoder's cut; length bounds) or by DynamicVal x every constraint with an antichain of sub-types replaced by the placeholder: same type; known parts equal (whole numbers and exact float64 numerically identical, other numbers equal); every decoded unknown's range includes the original's (nullness, bounds with inclusiveness, byte prefix, length interval) so nothing is narrowed or invented; marked values at any depth are rejected with an error.",
+  "trusted: rangeIncludes / c16Same (c16.go); bound: codecTypes x member caps, refinement alphabet of unknownAlphabet()", "§3 C15/C16")
 NOT_YET = {}
 props = [json.loads(l) for l in open('/verif/properties.jsonl')]
 checks = []
